@@ -42,7 +42,12 @@ TokText(c) ==
 RECURSIVE StrBody(_)
 StrBody(s) == IF s = <<>> THEN "" ELSE TokText(Head(s)) \o StrBody(Tail(s))
 Quoted(s) == "\"" \o StrBody(s) \o "\""
-Name(n) == "\"" \o n \o "\""           \* static names (struct fields, variants): plain identifiers
+\* static names (struct fields, variants) are strings like any other: a name given with serde(rename) may
+\* hold characters that need escaping
+NameChar(c) == CASE c = "\"" -> "\\\"" [] c = "\\" -> "\\\\" [] c = "\n" -> "\\n" [] c = "\t" -> "\\t" [] OTHER -> c
+RECURSIVE NameBody(_)
+NameBody(n) == IF n = "" THEN "" ELSE NameChar(SubSeq(n, 1, 1)) \o NameBody(SubSeq(n, 2, Len(n)))
+Name(n) == "\"" \o NameBody(n) \o "\""
 
 \* escape rule over code points (checked against exhaustive sweeps of the implementation)
 HexDigit(n) == SubSeq("0123456789abcdef", n + 1, n + 1)
